@@ -724,6 +724,9 @@ class QueryPlanner:
 
         if query.cte is not None:
             self.plan_cte(query)
+            # the CTEs are steps of the plan now: they are not part of what is sent further
+            query = copy.copy(query)
+            query.cte = None
 
         from_table = query.from_table
 
